@@ -117,6 +117,8 @@ theorem step_ops_fine {w s l s'} (hs : step w s l = some s') (hl : l.isOpEdge = 
   case timerArm => unfold stepTimerArm at hs; fine_crush hs
   case timerEnd => unfold stepTimerEnd at hs; fine_crush hs
   case tickBegin => unfold stepTickBegin at hs; fine_crush hs
+  case extPush => unfold stepExtPush at hs; fine_crush hs
+  case extBegin => unfold stepExtBegin at hs; fine_crush hs
   case time => unfold stepTime at hs; fine_crush hs
   case cancel => unfold stepCancel at hs; fine_crush hs
   case taskPanic => unfold stepTaskPanic at hs; fine_crush hs
